@@ -1130,7 +1130,11 @@ def run(ctx):
     n = oracle(ctx, budget)
     n += oracle_variants(ctx, budget)
     ctx.note(f'direct oracle: {n} recomposition comparisons on real methods, bit-exact (budget x{budget})')
-    ctx.note('not covered: custom_bc with lam smoothing (Whittaker system is C06), regions with an empty section (NaN mean), '
+    ctx.note('oracle 2: recomposition identities with non-default wrapped-method parameters per family (mask_initial_peaks, '
+             'use_original, cost functions, threshold, diff_order, spline_degree, ...), sorted / unsorted x, with / without user weights; '
+             'at the wrapped-call boundary every sub-call\'s array arguments are snapshotted on entry, must be unchanged on return, '
+             'bit-identical across the four fits / step-2 calls / sweep and to the reported arrays; recomputation uses pristine copies')
+    ctx.note('not covered: custom_bc with user weights in method_kwargs on UNSORTED x (only sorted x is exercised), custom_bc with lam smoothing (Whittaker system is C06), regions with an empty section (NaN mean), '
              '2-D adaptive_minmax index arithmetic (same code shape, four edges) is exercised by C01/C02 oracles only, '
              'the Gaussian / extrapolated edge values of optimize_extended_range, the log-spaced lam grid values')
 
